@@ -19,7 +19,7 @@
 (* Whitespace never matters; every other character is ignored; text        *)
 (* before the first command contributes nothing.                           *)
 (***************************************************************************)
-EXTENDS Integers, Sequences, FiniteSets
+EXTENDS Integers, Sequences, FiniteSets, SequencesExt
 
 --------------------------------------------------------------------------
 \* character classes (code points)
@@ -96,21 +96,32 @@ ColOf(t, i) == LET nl == {j \in 1 .. (i-1) : t[j] = Newline}
                IN IF nl = {} THEN i - 1
                   ELSE (i - 1) - (CHOOSE m \in nl : \A k \in nl : k <= m)
 
+\* the command that starts at position i (IsStartAt(t, i)), and where scanning resumes after it
+CommandAt(t, i) ==
+  LET single == t[i] \in SingleCmds
+      e  == IF single THEN i ELSE FirstEnd(t, i+1, t[i])
+      k  == IF single THEN KindOfSingle(t[i]) ELSE KindOfEnd(t[e])
+      h  == IF single THEN 1 ELSE Len(HangulOf(t, i, e))
+      ts == TailScan(t, e+1, 0, <<>>, <<>>)
+  IN [cmd |-> [k |-> k, h |-> h, d |-> ts.d, a |-> AreaTree(ts.toks),
+               line |-> LineOf(t, i), col |-> ColOf(t, i),
+               raw |-> (IF single THEN <<t[i]>> ELSE HangulOf(t, i, e)) \o ts.raw],
+      next |-> ts.next]
+
+\* Commands from position i on.  (Kept as the defining recursion; Commands below computes the same
+\* sequence as a strict left fold over the positions, which TLC evaluates in linear rather than
+\* cubic time on long texts.)
 RECURSIVE Cmds(_,_)
 Cmds(t, i) ==
   IF i > Len(t) THEN <<>>
   ELSE IF ~IsStartAt(t, i) THEN Cmds(t, i+1)
-  ELSE LET single == t[i] \in SingleCmds
-           e  == IF single THEN i ELSE FirstEnd(t, i+1, t[i])
-           k  == IF single THEN KindOfSingle(t[i]) ELSE KindOfEnd(t[e])
-           h  == IF single THEN 1 ELSE Len(HangulOf(t, i, e))
-           ts == TailScan(t, e+1, 0, <<>>, <<>>)
-       IN << [k |-> k, h |-> h, d |-> ts.d, a |-> AreaTree(ts.toks),
-              line |-> LineOf(t, i), col |-> ColOf(t, i),
-              raw |-> (IF single THEN <<t[i]>> ELSE HangulOf(t, i, e)) \o ts.raw] >>
-          \o Cmds(t, ts.next)
+  ELSE LET c == CommandAt(t, i) IN <<c.cmd>> \o Cmds(t, c.next)
 
-Commands(t) == Cmds(t, 1)
+Commands(t) ==
+  FoldLeft(LAMBDA acc, i : IF i < acc.next \/ ~IsStartAt(t, i) THEN acc
+                           ELSE LET c == CommandAt(t, i) IN [next |-> c.next, cmds |-> Append(acc.cmds, c.cmd)],
+           [next |-> 1, cmds |-> <<>>], [i \in 1 .. Len(t) |-> i]).cmds
+
 
 \* an area tree in prefix notation as a flat sequence: 0 = Nil, 63 = ?, 33 = !, 100+t = heart t
 \* (the form in which harness and TLC exchange trees; deep trees stay flat in JSON)
